@@ -9,6 +9,7 @@ import SxVerif.Proofs.ConcPacketBytes
 import SxVerif.Proofs.ConcPacketProgress
 import SxVerif.Generated.StagesPacket
 import SxVerif.Generated.Problems
+import SxVerif.Generated.JsonWriter
 
 namespace SxVerif.C07
 open SxVerif.Pipe SxVerif.Pipe.Desc SxVerif.Generated
@@ -103,5 +104,17 @@ example : SideConds reference := by decide
 example : ¬ FreeAfterWrite swappedTopology := swapped_not_freeAfterWrite
 example : ∃ s, Reachable (cfgOf swappedTopology) swappedInput s ∧
     s.written.map (·.1) = [[2]] ∧ s.writtenG.map (·.frame) = [[1]] := free_before_write_breaks_bytes
+
+
+/-- (T) every error handed to the logger becomes one record at once, however many there are: the zap logger is the
+    production configuration with sampling switched off and no further option (its sink is the process's stderr,
+    locked, unbuffered: one `write(2)` per record, nothing kept in memory that a later `Sync` would have to save), and
+    `(*logger).Error` is one call of it.  (zap itself is trusted; the dynamic side are the `…/mass`, `…/slowerr` and
+    `…/errflood` cases of `e2eapp` and component `e2eerr`.) -/
+theorem error_records_written_through :
+    SxVerif.Generated.errorLoggerConfig = "zap.NewProductionConfig()" ∧
+    SxVerif.Generated.errorLoggerConfAssigns = [("Sampling", "nil")] ∧
+    SxVerif.Generated.errorLoggerCtor = ("conf.Build", 0) ∧
+    SxVerif.Generated.loggerErrorBody = ["l.zapl.Error(l.label, zap.Error(err))"] := by decide
 
 end SxVerif.C07
